@@ -113,7 +113,10 @@ def check(ctx, report):
         consts = class_consts(model, f)
         defs = single_defs(f.node)
         want = lin(payload, consts, defs)
-        key = '%s@NotEnoughData(%s)' % (cons, ast.unparse(payload))
+        # the construct names the count with single-assignment locals written out, so that naming a subexpression does not
+        # change the identity of a finding
+        from ..astutil import inline_locals
+        key = '%s@NotEnoughData(%s)' % (cons, ast.unparse(inline_locals(payload, f.node)))
         if guard is None:
             report.add('C04.R1', key, 'no enclosing guard establishes that data is missing')
             continue
